@@ -179,6 +179,7 @@ def analyse_inst(inst, steps, drained):
     prev = {"idle": [True] * n, "parked": [], "cont": []}
     started, returned, pending, completed, waits = [], [], [], [], []
     flushes = []
+    tick1 = None
     fails = []
     nwaits = 0
     for i, (a, o) in enumerate(steps):
@@ -194,6 +195,13 @@ def analyse_inst(inst, steps, drained):
         if k == "wait" and a[1] < n and idle_prev[a[1]]:
             waits.append((a[1], list(returned), i))
             nwaits += 1
+        calm = all(idle_prev) and not prev["parked"] and prev.get("guarded") and not prev.get("qpark") and \
+            not prev.get("spark") and not prev.get("benter")
+        if k == "tick" and tick1:
+            left = [t for t in tick1 if t in set(o["cont"])]
+            if left:
+                fails.append({"kind": "periodic-flush", "step": i, "still_in_container_after_two_ticks": left[:20]})
+        tick1 = list(prev["cont"]) if (k == "tick" and calm and prev["cont"]) else None
         if k == "flush" and a[1] < n and idle_prev[a[1]]:
             flushes.append((a[1], list(returned), i))
         if k == "rel":
@@ -492,6 +500,14 @@ class C11(Property):
         cs.append(single("bulk", 3, 3, [["add", 0, 1, 1], ["flush", 1], ["tick"], ["wait", 2], ["rel", 0]]))
         cs.append(single("bulk", 3, 4, [["add", 0, 1, 1], ["flush", 1], ["clock", 10001], ["tick"], ["add", 0, 2, 1], ["wait", 2], ["rel", 0],
                                         ["flush", 3], ["clock", 20000], ["tick"], ["tick"], ["wait", 0], ["rel", 0], ["rel", 0]]))
+        # the periodic flush after a restart (seeded change C11-11: one ticker per executor, reused by restarted flushers
+        # although the quitting flusher stopped it): use, idle-quit, add below the threshold, two ticks -> executed
+        for kind in ("bulk", "chunk", "periodical"):
+            cs.append(single(kind, 3, 2, [["add", 0, 1, 1], ["tick"], ["tick"], ["rel", 0], ["clock", 10001], ["tick"], ["add", 1, 2, 1],
+                                          ["tick"], ["tick"], ["rel", 0], ["clock", 30000], ["tick"], ["tick"], ["add", 0, 3, 1], ["add", 1, 4, 1],
+                                          ["tick"], ["tick"], ["rel", 0]]))
+        cs.append(agg("struct", "nil", 3, 2, [["add", 0, 1, 1], ["tick"], ["tick"], ["rel", 0], ["clock", 10001], ["tick"], ["add", 1, 0, 0],
+                                              ["tick"], ["tick"], ["rel", 0]]))
         # the idle limit is interval * idleRound: idle ticks below it (clock 5000, 10000) keep the flusher, 10001 makes it quit
         cs.append(single("bulk", 3, 2, [["add", 0, 1, 1], ["tick"], ["rel", 0], ["clock", 5000], ["tick"], ["clock", 5000], ["tick"],
                                         ["add", 1, 2, 1], ["clock", 1], ["tick"], ["rel", 0], ["clock", 10001], ["tick"], ["add", 0, 3, 1]]))
